@@ -122,12 +122,12 @@ func directed(tier string) []any {
 		win = 256
 	}
 	pol := &Node{Op: "and", L: leaf, R: &Node{Op: "not", L: &Node{Op: "leaf", Label: "b", Value: "z"}}}
-	total := 4300 * 8
+	// both tiers enumerate every bit of the ciphertext (about 24 000 decryptions, a few
+	// milliseconds each: three flips among them made Decrypt panic on the pinned tree, and
+	// evenly spaced samples had missed all three); the thorough tier uses smaller windows and
+	// repeats the enumeration for generated policies
+	total := 3100 * 8
 	step := win
-	if tier != "thorough" {
-		step = total / 24 // quick: evenly spaced windows of 64 flips
-		win = 64
-	}
 	for from := 0; from < total; from += step {
 		out = append(out, &Plan{Seed: 99, Policy: pol, Holders: []Holder{{Attrs: map[string]string{"a": "x", "b": "y"}}}, MsgLen: 20, Fault: "allflips", From: from, To: from + win})
 	}
